@@ -833,6 +833,16 @@ func skipInit(path string) bool {
 		strings.HasPrefix(path, "golang.org/x/net") || strings.HasPrefix(path, "golang.org/x/sys") {
 		return true
 	}
+	// third-party modules: only the ones whose package state the checked code relies on
+	if first, _, ok := strings.Cut(path, "/"); ok && strings.Contains(first, ".") && !strings.HasPrefix(path, ModulePath) {
+		for _, allow := range []string{"github.com/emirpasic/gods", "github.com/pingcap/errors", "github.com/pingcap/tidb", "github.com/pingcap/parser",
+			"github.com/shopspring/decimal", "github.com/cznic/mathutil", "github.com/google/uuid", "github.com/pkg/errors", "github.com/hashicorp/go-version"} {
+			if strings.HasPrefix(path, allow) {
+				return false
+			}
+		}
+		return true
+	}
 	return false
 }
 
